@@ -1292,6 +1292,11 @@ class Converter:
         loop_state_vars = sorted(vars_def_in_loop.intersection(exposed_uses | live_out))
         scan_outputs: list[str] = []  # TODO
         outputs = loop_state_vars + scan_outputs
+        if not outputs:
+            self._fail(
+                loop_stmt,
+                "The loop does not update any variable that is used afterwards: not supported.",
+            )
 
         # loop-condition:
         # o_loop_condition = self._emit_const(True, "true", self._source_of(loop_stmt))
